@@ -119,7 +119,13 @@ func (g *Grammar) Finish() *Grammar {
 	g.prodM = map[string]*Prod{}
 	g.alts = nil
 	for _, p := range g.Prods {
-		g.prodM[p.Head] = p
+		// a nonterminal may be defined by several rules (with other rules in between):
+		// rendering keeps them apart, derivation sees the union of the alternatives
+		if m, ok := g.prodM[p.Head]; ok {
+			g.prodM[p.Head] = &Prod{Head: p.Head, Alts: append(append([]*Alt{}, m.Alts...), p.Alts...)}
+		} else {
+			g.prodM[p.Head] = &Prod{Head: p.Head, Alts: append([]*Alt{}, p.Alts...)}
+		}
 		for _, a := range p.Alts {
 			a.ID = len(g.alts) + 1
 			a.Head = p.Head
